@@ -31,12 +31,25 @@ struct growing_circular_array {
   T* get(std::size_t idx, std::memory_order order) {
     // (1) - this acquire-load synchronizes-with the release-store (2)
     auto capacitiy = _capacity.load(std::memory_order_acquire);
-    return get_entry(idx, capacitiy).load(order);
+    for (;;) {
+      // The buckets are shared between the different capacities. When the array grows, an entry can be
+      // moved to a new slot and its old slot can get overwritten by a subsequent put. So if we have read
+      // the slot based on an outdated capacity, we might see a value that belongs to a different index.
+      // (3) - this acquire-load synchronizes-with the release-store (4); this ensures that if we see a
+      //       value that was stored after a grow, we also see the new capacity in the subsequent load.
+      auto* result = get_entry(idx, capacitiy).load(stronger_order(order, std::memory_order_acquire));
+      auto new_capacitiy = _capacity.load(std::memory_order_acquire);
+      if (new_capacitiy == capacitiy) {
+        return result;
+      }
+      capacitiy = new_capacitiy;
+    }
   }
 
   void put(std::size_t idx, T* value, std::memory_order order) {
     auto capacitiy = _capacity.load(std::memory_order_relaxed);
-    get_entry(idx, capacitiy).store(value, order);
+    // (4) - this release-store synchronizes-with the acquire-load (3)
+    get_entry(idx, capacitiy).store(value, stronger_order(order, std::memory_order_release));
   }
 
   bool can_grow() { return capacity() < max_capacity; }
@@ -45,6 +58,10 @@ struct growing_circular_array {
 
 private:
   using entry = std::atomic<T*>;
+
+  static constexpr std::memory_order stronger_order(std::memory_order requested, std::memory_order minimum) {
+    return requested == std::memory_order_relaxed || requested == std::memory_order_consume ? minimum : requested;
+  }
 
   entry& get_entry(std::size_t idx, std::size_t capacity) {
     idx = idx & (capacity - 1);
